@@ -18,7 +18,7 @@ import (
 // model's state must be quiescent and the file server must have seen FidDestroy exactly once for
 // every fid object.
 func genC11fid(c *Ctx) {
-	genFidTable(c, "C11", []string{"retain-vs-close", "dying-reuse", "mixed", "destroy-overlap"}, c.scale(120, 4000))
+	genFidTable(c, "C11", []string{"retain-vs-close", "dying-reuse", "mixed", "destroy-overlap", "clunk-and-user"}, c.scale(150, 5000))
 	genC11ufs(c)
 }
 
@@ -155,6 +155,32 @@ func genFidTable(c *Ctx, prop string, kinds []string, n int) {
 			time.Sleep(time.Duration(500+r.Intn(2000)) * time.Microsecond)
 			close(p.release)
 			parks = nil
+		case "clunk-and-user":
+			// a Tclunk (or Tremove) and another request are executing on one fid when the client
+			// disconnects; the clunk completes first: the fid may only be destroyed when the other
+			// request has let go of it
+			x := uint32(1 + r.Intn(nf))
+			ridU, ridC := s.nreqs(), s.nreqs()+1
+			f0 := s.nframes()
+			s.mu.Lock()
+			s.plans[ridU] = plan{gate: true, async: r.Intn(3) == 0}
+			s.plans[ridC] = plan{gate: true}
+			s.mu.Unlock()
+			s.write(s.send(50, func(fc *g.Fcall) error { return g.PackTstat(fc, x) }))
+			s.waitEntered([]int{ridU}, f0, 2*time.Second)
+			if r.Intn(2) == 0 {
+				s.write(s.send(51, func(fc *g.Fcall) error { return g.PackTclunk(fc, x) }))
+			} else {
+				s.write(s.send(51, func(fc *g.Fcall) error { return g.PackTremove(fc, x) }))
+			}
+			s.waitEntered([]int{ridC}, f0, 2*time.Second)
+			s.c.Close()
+			if r.Intn(3) > 0 {
+				waitc(s.closeEnd, 5*time.Second)
+			}
+			s.release(ridC)
+			time.Sleep(time.Duration(500+r.Intn(3000)) * time.Microsecond)
+			s.release(ridU)
 		case "mixed":
 			// a burst of pipelined walks, stats and clunks with goroutines parked all over the fid
 			// table, and a disconnect in the middle of it
